@@ -2,7 +2,6 @@
 NOT_APPLICABLE = {
     "C11": "The observable risk is hash-seed dependence of http_types::Headers (a HashMap) and of the hand-written Response equality; a single HashMap insert+get under Kani's nondeterministic RandomState keys does not get a SAT verdict in 9 min (SipHash), a concrete http_types::Response::new(200) does not either; the rest (no clock/randomness in the runtime, cross-process replay) is whole-runtime (see C01).",
     "C14": "Fidelity of method/URL/headers/body runs through url::Url::parse, http_types header maps and Display formatting (to_string() is the subject, so fmt cannot be stubbed): input-length-proportional third-party parsers, IDNA/percent-encoding tables; no integer kernel to isolate.",
-    "C18": "The timer is select_biased! over a ShellRequest and a futures::oneshot inside a command task, followed by a second request; deciding 'at most one outcome for every interleaving' needs the executor, two resolve closures and oneshot's lock - the combination that does not terminate under Kani; the id counter (fetch_add on a static) is trivially unique below 2^64 and needs no solver.",
     "C20": "The CLI registry is computed by a datalog engine (ascent) over a rustdoc-JSON graph of 10^3-10^4 items held in hash maps and strings; invariance under renumbering quantifies over permutations of that graph; nothing loop-free or small-state to encode.",
 }
 # claimed-in-DESIGN but not built yet are listed here until their check exists (kept current by gen_manifest)
